@@ -1,0 +1,246 @@
+//go:build verif
+
+// Contracts for package field, checked by /verif/govc (contract-based deductive
+// verification).  This file contains only comments: with or without the `verif`
+// build tag it adds no symbol to the package.
+//
+// Syntax: see /verif/govc/cparse.py.  In `ensures`, a parameter that is not named
+// in `assigns` denotes its value at entry (old); `v.l0` of an assigned receiver is
+// the final value.  Each function is verified under every alias partition of its
+// pointer parameters.
+package field
+
+//@ const P = 2^255 - 19
+//@ const B = 2^52 - 38
+//@ const M51 = 2^51 - 1
+//@ define lv(e) = e.l0 + e.l1*2^51 + e.l2*2^102 + e.l3*2^153 + e.l4*2^204
+//@ define inv(e) = e.l0 <= B && e.l1 <= B && e.l2 <= B && e.l3 <= B && e.l4 <= B
+//@ define tight(e) = e.l0 < 2^51 + 2^18 && e.l1 < 2^51 + 2^13 && e.l2 < 2^51 + 2^13 && e.l3 < 2^51 + 2^13 && e.l4 < 2^51 + 2^13
+//@ define canon(e) = e.l0 <= M51 && e.l1 <= M51 && e.l2 <= M51 && e.l3 <= M51 && e.l4 <= M51 && lv(e) < P
+//@ define v128(x) = x.lo + x.hi*2^64
+
+//@ globalinv [feZero] feZero.l0 == 0 && feZero.l1 == 0 && feZero.l2 == 0 && feZero.l3 == 0 && feZero.l4 == 0
+//@ globalinv [feOne] feOne.l0 == 1 && feOne.l1 == 0 && feOne.l2 == 0 && feOne.l3 == 0 && feOne.l4 == 0
+
+//@ func mul64(a, b)
+//@   mode lia
+//@   ensures [value] v128(result) == a * b
+//@   ensures [lo] result.lo < 2^64
+
+//@ func addMul64(v, a, b)
+//@   mode lia
+//@   requires [fits] v128(v) + a * b < 2^128
+//@   ensures [value] v128(result) == v128(v) + a * b
+
+//@ func shiftRightBy51(a)
+//@   mode lia
+//@   requires [fits] v128(a) < 2^115
+//@   ensures [value] result == v128(a) / 2^51
+
+//@ func (*Element).carryPropagateGeneric(v)
+//@   mode lia
+//@   assigns *v
+//@   ensures [receiver] result == v
+//@   ensures [cong] cong(lv(v), lv(old(v)), P)
+//@   ensures [l0] v.l0 <= M51 + 19 * (old(v).l4 / 2^51)
+//@   ensures [l1] v.l1 <= M51 + old(v).l0 / 2^51
+//@   ensures [l2] v.l2 <= M51 + old(v).l1 / 2^51
+//@   ensures [l3] v.l3 <= M51 + old(v).l2 / 2^51
+//@   ensures [l4] v.l4 <= M51 + old(v).l3 / 2^51
+//@   ensures [tight] tight(v)
+
+//@ func (*Element).carryPropagate(v)
+//@   mode lia
+//@   assigns *v
+//@   ensures [receiver] result == v
+//@   ensures [cong] cong(lv(v), lv(old(v)), P)
+//@   ensures [l0] v.l0 <= M51 + 19 * (old(v).l4 / 2^51)
+//@   ensures [l1] v.l1 <= M51 + old(v).l0 / 2^51
+//@   ensures [l2] v.l2 <= M51 + old(v).l1 / 2^51
+//@   ensures [l3] v.l3 <= M51 + old(v).l2 / 2^51
+//@   ensures [l4] v.l4 <= M51 + old(v).l3 / 2^51
+//@   ensures [tight] tight(v)
+
+//@ func (*Element).Add(v, a, b)
+//@   mode lia
+//@   requires [inv] inv(a) && inv(b)
+//@   assigns *v
+//@   ensures [receiver] result == v
+//@   ensures [tight] tight(v)
+//@   ensures [value] cong(lv(v), lv(a) + lv(b), P)
+
+//@ func (*Element).Subtract(v, a, b)
+//@   mode lia
+//@   requires [inv] inv(a) && inv(b)
+//@   assigns *v
+//@   ensures [receiver] result == v
+//@   ensures [tight] tight(v)
+//@   ensures [value] cong(lv(v), lv(a) - lv(b), P)
+
+//@ func (*Element).Negate(v, a)
+//@   mode lia
+//@   requires [inv] inv(a)
+//@   assigns *v
+//@   ensures [receiver] result == v
+//@   ensures [tight] tight(v)
+//@   ensures [value] cong(lv(v), 0 - lv(a), P)
+
+//@ func feMulGeneric(v, a, b)
+//@   mode lia
+//@   requires [inv] inv(a) && inv(b)
+//@   assigns *v
+//@   ensures [tight] tight(v)
+//@   ensures [value] cong(lv(v), lv(a) * lv(b), P)
+
+//@ func feSquareGeneric(v, a)
+//@   mode lia
+//@   requires [inv] inv(a)
+//@   assigns *v
+//@   ensures [tight] tight(v)
+//@   ensures [value] cong(lv(v), lv(a) * lv(a), P)
+
+//@ func feMul(v, a, b)
+//@   mode lia
+//@   requires [inv] inv(a) && inv(b)
+//@   assigns *v
+//@   ensures [tight] tight(v)
+//@   ensures [value] cong(lv(v), lv(a) * lv(b), P)
+
+//@ func feSquare(v, a)
+//@   mode lia
+//@   requires [inv] inv(a)
+//@   assigns *v
+//@   ensures [tight] tight(v)
+//@   ensures [value] cong(lv(v), lv(a) * lv(a), P)
+
+//@ func (*Element).Multiply(v, x, y)
+//@   mode lia
+//@   requires [inv] inv(x) && inv(y)
+//@   assigns *v
+//@   ensures [receiver] result == v
+//@   ensures [tight] tight(v)
+//@   ensures [value] cong(lv(v), lv(x) * lv(y), P)
+
+//@ func (*Element).Square(v, x)
+//@   mode lia
+//@   requires [inv] inv(x)
+//@   assigns *v
+//@   ensures [receiver] result == v
+//@   ensures [tight] tight(v)
+//@   ensures [value] cong(lv(v), lv(x) * lv(x), P)
+
+//@ func mul51(a, b)
+//@   mode lia
+//@   requires [fits] a <= B
+//@   ensures [value] result0 + result1 * 2^51 == a * b
+//@   ensures [lo] result0 <= M51
+//@   ensures [hi] result1 <= a * b / 2^51
+
+//@ func (*Element).Mult32(v, x, y)
+//@   mode lia
+//@   requires [inv] inv(x)
+//@   assigns *v
+//@   ensures [receiver] result == v
+//@   ensures [inv] inv(v)
+//@   ensures [value] cong(lv(v), lv(x) * y, P)
+
+//@ func (*Element).Zero(v)
+//@   mode lia
+//@   assigns *v
+//@   ensures [receiver] result == v
+//@   ensures [value] v.l0 == 0 && v.l1 == 0 && v.l2 == 0 && v.l3 == 0 && v.l4 == 0
+
+//@ func (*Element).One(v)
+//@   mode lia
+//@   assigns *v
+//@   ensures [receiver] result == v
+//@   ensures [value] v.l0 == 1 && v.l1 == 0 && v.l2 == 0 && v.l3 == 0 && v.l4 == 0
+
+//@ func (*Element).Set(v, a)
+//@   mode lia
+//@   assigns *v
+//@   ensures [receiver] result == v
+//@   ensures [value] v.l0 == a.l0 && v.l1 == a.l1 && v.l2 == a.l2 && v.l3 == a.l3 && v.l4 == a.l4
+
+//@ func (*Element).reduce(v)
+//@   mode lia
+//@   requires [inv] inv(v)
+//@   assigns *v
+//@   ensures [receiver] result == v
+//@   ensures [canon] canon(v)
+//@   ensures [value] lv(v) == lv(old(v)) % P
+
+//@ define eqlimbs(x, y) = x.l0 == y.l0 && x.l1 == y.l1 && x.l2 == y.l2 && x.l3 == y.l3 && x.l4 == y.l4
+
+//@ func mask64Bits(cond)
+//@   mode bv
+//@   requires [cond] cond == 0 || cond == 1
+//@   ensures [one] cond == 1 ==> result == 2^64 - 1
+//@   ensures [zero] cond == 0 ==> result == 0
+
+//@ func (*Element).Select(v, a, b, cond)
+//@   mode bv
+//@   requires [cond] cond == 0 || cond == 1
+//@   assigns *v
+//@   ensures [receiver] result == v
+//@   ensures [one] cond == 1 ==> eqlimbs(v, a)
+//@   ensures [zero] cond == 0 ==> eqlimbs(v, b)
+
+//@ func (*Element).Swap(v, u, cond)
+//@   mode bv
+//@   requires [cond] cond == 0 || cond == 1
+//@   assigns *v, *u
+//@   ensures [one] cond == 1 ==> eqlimbs(v, old(u)) && eqlimbs(u, old(v))
+//@   ensures [zero] cond == 0 ==> eqlimbs(v, old(v)) && eqlimbs(u, old(u))
+
+//@ func (*Element).SetBytes(v, x)
+//@   mode bv
+//@   assigns *v
+//@   ensures [badlen] len(x) != 32 ==> isnil(result0) && !isnil(result1) && unchanged(*v)
+//@   ensures [ok] len(x) == 32 ==> result0 == v && isnil(result1)
+//@   ensures [value] len(x) == 32 ==> lv(v) == le(x, 32) % 2^255
+//@   ensures [limbs] len(x) == 32 ==> v.l0 <= M51 && v.l1 <= M51 && v.l2 <= M51 && v.l3 <= M51 && v.l4 <= M51
+
+//@ func (*Element).bytes(v, out)
+//@   mode bv
+//@   requires [inv] inv(v)
+//@   requires [zeroed] forall i in 0..32: out[i] == 0
+//@   assigns *out
+//@   ensures [slice] result == sliceof(out, 0, 32)
+//@   ensures [value] le(out, 32) == lv(v) % P
+
+//@ func (*Element).Bytes(v)
+//@   mode bv
+//@   requires [inv] inv(v)
+//@   ensures [fresh] fresh(result)
+//@   ensures [len] len(result) == 32
+//@   ensures [value] le(result, 32) == lv(v) % P
+
+//@ func (*Element).Equal(v, u)
+//@   mode bv
+//@   requires [inv] inv(v) && inv(u)
+//@   ensures [bit] result == 0 || result == 1
+//@   ensures [iff] result == 1 <==> lv(v) % P == lv(u) % P
+
+//@ func (*Element).IsNegative(v)
+//@   mode bv
+//@   requires [inv] inv(v)
+//@   ensures [value] result == (lv(v) % P) % 2
+
+//@ func (*Element).Absolute(v, u)
+//@   mode lia
+//@   requires [inv] inv(u)
+//@   assigns *v
+//@   ensures [receiver] result == v
+//@   ensures [inv] inv(v)
+//@   ensures [even] (lv(v) % P) % 2 == 0
+//@   ensures [pos] (lv(u) % P) % 2 == 0 ==> eqlimbs(v, u)
+//@   ensures [neg] (lv(u) % P) % 2 == 1 ==> cong(lv(v), 0 - lv(u), P)
+
+//@ func (*Element).SetWideBytes(v, x)
+//@   mode lia
+//@   assigns *v
+//@   ensures [badlen] len(x) != 64 ==> isnil(result0) && !isnil(result1) && unchanged(*v)
+//@   ensures [ok] len(x) == 64 ==> result0 == v && isnil(result1)
+//@   ensures [value] len(x) == 64 ==> cong(lv(v), le(x, 64), P)
+//@   ensures [tight] len(x) == 64 ==> tight(v)
